@@ -1,20 +1,26 @@
 #!/usr/bin/env bash
-# Re-evaluates every stored seed (seeded/*/) against the check of its property; writes seeded/RESULTS.md.
+# Re-evaluates every stored seed (seeded/*/) against the check of its property (PAR at a time, default 4);
+# writes seeded/RESULTS.md.
 cd /verif
-TMP=$(mktemp)
-for d in seeded/*/; do
-  n=$(basename "$d")
+TMP=$(mktemp -d)
+one() {
+  d=$1; n=$(basename "$d")
   prop=$(python3 -c "import json;print(json.load(open('$d/meta.json'))['property'])")
   dest=.
   if grep -q "^package cfgerrors" $d/*_test.go 2>/dev/null; then dest=cfgerrors; fi
-  ./tools/seedeval.sh "$d" "$dest" "." "$prop" 2>&1 | grep '^SEED' >> "$TMP"
-done
+  if grep -q "^package origins" $d/*_test.go 2>/dev/null; then dest=internal/origins; fi
+  if grep -q "^package headers" $d/*_test.go 2>/dev/null; then dest=internal/headers; fi
+  if [ -f "$d/DEST" ]; then dest=$(cat "$d/DEST"); fi
+  SEEDEVAL_TIMEOUT=${SEEDEVAL_TIMEOUT:-1500} ./tools/seedeval.sh "$d" "$dest" "." "$prop" 2>&1 | grep '^SEED' > "$2/$n.txt"
+}
+export -f one
+ls -d seeded/*/ | xargs -P "${PAR:-4}" -I{} bash -c 'one {} '"$TMP"
 {
   echo "# Seeded changes re-evaluated against the current checks (quick tier)"
   echo
   echo "| seed | repo suite with change | demonstration with / without change | check verdict |"
   echo "|---|---|---|---|"
-  sort "$TMP" | awk '{split($3,a,"=");split($4,b,"=");split($5,c,"=");printf "| %s | %s | %s / %s | %s |\n", $2, a[2], b[2], c[2], $6}'
+  cat "$TMP"/*.txt | sort | awk '{split($3,a,"=");split($4,b,"=");split($5,c,"=");printf "| %s | %s | %s / %s | %s |\n", $2, a[2], b[2], c[2], $6}'
 } > seeded/RESULTS.md
-rm -f "$TMP"
-grep -c "=caught" seeded/RESULTS.md; grep -E "missed|error" seeded/RESULTS.md
+rm -rf "$TMP"
+grep -c "=caught" seeded/RESULTS.md; grep -E "missed|error|timeout" seeded/RESULTS.md
